@@ -144,7 +144,7 @@ func failureForm(op uint16, resp []byte) bool {
 func TestC01(t *testing.T) {
 	r := NewReporter(t)
 	defer r.Done()
-	r.Rule("path strings = optional leading '/' x all sequences of <= N segments from {'', '.', '..', sub, <root>-other, <root>, out, ***DVD***, ***PS3***, PS3ISO, g.iso, secret.txt, CLOSEFILE} + specials (NUL, 65534-byte path, 300-deep ../, backslashes, '..' decorated with control/space/invalid bytes, paths padded with './', 'x/../', '//' to 255..65535 bytes) x 8 path-carrying opcodes x writing on/off x root spelling x preceding request; short escaping paths also delivered in pieces (1, 7, 17 bytes, cut in the middle and one byte before the end); oracles: (O1) every leaf filesystem operation stays under the root, (O2) sentinel tree outside the root unchanged, (O3) byte-identical responses against a twin world whose outside is empty, (O4) response = model answer for the clamped path or the failure form; distinct by (path, mode, spelling, preceding request)")
+	r.Rule("path strings = optional leading '/' x all sequences of <= N segments from {'', '.', '..', sub, <root>-other, <root>, out, ***DVD***, ***PS3***, PS3ISO, g.iso, secret.txt, CLOSEFILE} + specials (NUL, 65534-byte path, 300-deep ../, backslashes, '..' decorated with control/space/invalid bytes, paths padded with './', 'x/../', '//' to 255..65535 bytes) x 8 path-carrying opcodes x writing on/off x root spelling (incl. root directories named with trailing dots / spaces next to a sibling without them) x preceding request; short escaping paths also delivered in pieces (1, 7, 17 bytes, cut in the middle and one byte before the end); oracles: (O1) every leaf filesystem operation stays under the root, (O2) sentinel tree outside the root unchanged, (O3) byte-identical responses against a twin world whose outside is empty, (O4) response = model answer for the clamped path or the failure form; distinct by (path, mode, spelling, preceding request)")
 	A := buildC01World(t, true)
 	B := buildC01World(t, false)
 	defer A.w.Cleanup()
@@ -386,6 +386,59 @@ func TestC01(t *testing.T) {
 				br.Stop()
 			}
 		}
+		// root directories whose own name ends in dots, spaces or carries a trailing slash-dot, next to a sibling named
+		// like the root without that ending: any "normalisation" of the configured root that eats part of the name
+		// lands in the sibling. Judged by plain observation: the marker inside the root is served, the sibling's is not.
+		odd := filepath.Join(A.w.Dir, "oddroots")
+		for ni, rootName := range []string{"games.", "games..", "games ", "games.iso.", ".games.", "ga.mes"} {
+			if !r.Mine(9000 + ni) {
+				continue
+			}
+			os.RemoveAll(odd)
+			root := filepath.Join(odd, rootName)
+			writeFileAbs(filepath.Join(root, "inside.txt"), []byte("inside the root"), baseTime)
+			for _, sib := range []string{strings.TrimRight(rootName, ". "), strings.Trim(rootName, ". "), strings.TrimRight(rootName, ".")} {
+				if sib != rootName && sib != "" {
+					writeFileAbs(filepath.Join(odd, sib, "secret.txt"), []byte("sibling"), baseTime)
+					writeFileAbs(filepath.Join(odd, sib, "inside.txt"), []byte("sibling's file of the same name!"), baseTime)
+				}
+			}
+			snap := snapshotTree(odd, root)
+			for _, sp := range []spell{{"abs", root, odd}, {"abs/", root + "/", odd}, {"abs/.", root + "/.", odd}, {"rel", rootName, odd}, {"./rel/", "./" + rootName + "/", odd}} {
+				for _, allow := range []bool{false, true} {
+					br, err := startReplayer(sp.arg, sp.cwd, binLogDir("C01"), allow)
+					key := sprintf("bin|odd-root %q as %s|%v", rootName, sp.name, allow)
+					r.State(key)
+					r.Nontrivial(key)
+					if err != nil {
+						r.Violation("C01:odd-root:start-failed", sprintf("root directory named %q given as %q: the server does not start: %v", rootName, sp.arg, err), map[string]any{"root_name": rootName, "spelling": sp.name})
+						continue
+					}
+					reqs := []Req{mkReq(opStatFile, "/inside.txt"), mkReq(opStatFile, "/secret.txt"), mkReq(opOpenFile, "/inside.txt"), rdReq(0, 100), mkReq(opOpenDir, "/"), noargReq(opReadDir),
+						mkReq(opCreateFile, "/new.txt"), wrReq([]byte("xyz")), mkReq(opMkdir, "/newdir"), mkReq(opDeleteFile, "/secret.txt")}
+					mI := newModel(root, allow)
+					resI := runSession(t, SrvOpts{Root: root, AllowWrite: allow}, mI, reqs, Delivery{})
+					os.Remove(filepath.Join(root, "new.txt"))
+					os.Remove(filepath.Join(root, "newdir"))
+					why, sig := br.replay(newModel(root, allow), reqs, lensOf(resI.Raw), resI.Closed)
+					r.Trace(1)
+					r.Transition(int64(len(reqs)))
+					if resI.Why != "" {
+						why, sig = "in-process: "+resI.Why, resI.WhySig
+					}
+					if why != "" {
+						r.Violation("C01:odd-root:"+sig, sprintf("root directory named %q given as %q (allow-write=%v): %s", rootName, sp.arg, allow, why), map[string]any{"root_name": rootName, "spelling": sp.name, "allow_write": allow})
+					}
+					if d := diffSnap(snap, snapshotTree(odd, root)); d != "[]" {
+						r.Violation("C01:odd-root:outside-changed", sprintf("root directory named %q given as %q (allow-write=%v): objects outside the root changed: %s", rootName, sp.arg, allow, d), map[string]any{"root_name": rootName, "spelling": sp.name})
+					}
+					br.Stop()
+					os.Remove(filepath.Join(root, "new.txt"))
+					os.Remove(filepath.Join(root, "newdir"))
+				}
+			}
+		}
+		os.RemoveAll(odd)
 		os.RemoveAll(binLogDir("C01"))
 	}
 	r.Assume("operator-placed symlinks are excluded by the property; Windows path forms are not explored; the twin world differs only in what exists outside the root")
